@@ -399,12 +399,30 @@ class ManifestRecursiveLoader:
 
         The function guarantees that the Manifests for subdirectories
         (more specific) will always be returned before the Manifests
-        for parent directories. The order is otherwise undefined.
+        for parent directories, and that a Manifest referenced from
+        another Manifest in the same directory will be returned before
+        the Manifest referencing it. The order is otherwise undefined.
         """
+        manifests = list(self._iter_unordered_manifests_for_path(
+            path, recursive=recursive))
+
+        # Manifests in the same directory referencing the given one
+        referrers = {}
+        for k, d, v in manifests:
+            for e in v.entries:
+                if e.tag == 'MANIFEST' and os.path.dirname(e.path) == '':
+                    referrers.setdefault(
+                        os.path.join(d, e.path), []).append(k)
+
+        def ref_level(k, seen=()):
+            if k in seen:
+                return 0
+            return max((1 + ref_level(r, seen + (k,))
+                        for r in referrers.get(k, ())), default=0)
+
         return sorted(
-                self._iter_unordered_manifests_for_path(
-                    path, recursive=recursive),
-                key=lambda kdv: len(kdv[1]),
+                manifests,
+                key=lambda kdv: (len(kdv[1]), ref_level(kdv[0])),
                 reverse=True)
 
     def load_manifests_for_path(self, path, recursive=False, verify=True):
